@@ -76,13 +76,28 @@ def extra(ctx, cfg, results, inprocess=True):
         if r.random() < 0.25:
             text = mutate(r, text.decode("utf8", "replace"))
         inputs.append((text[:4096], task, origin))
+    # accepted texts: printed random trees of the framework's generators (redex shapes of every simplification
+    # rule, mixed-sort quantifier blocks, variables and placeholders of every sort, many-pass formulas, programs of
+    # every generator, specifications, outlines, user guides), each through the commands that read that kind of text
+    accepted = []
+    if inprocess:
+        accepted = accepted_texts(ctx.seed, 30000 if thorough else 5000)
+    dist["accepted_text_inputs"] = {}
+    only_of = {}
+    for text, only, origin in accepted:
+        only_of[len(inputs)] = only
+        inputs.append((text, None, origin))
+        bump(dist["accepted_text_inputs"], origin.split(":")[1])
     with clilib.Scratch("C16") as scratch:
-        outs = clilib.pmap_processes(run_input_job, [(exe, scratch, i, t[0], t[1]) for i, t in enumerate(inputs)])
+        outs = clilib.pmap_processes(run_input_job, [(exe, scratch, i, t[0], t[1], only_of.get(i)) for i, t in enumerate(inputs)])
     crashes = []
     for (text, task, origin), res in zip(inputs, outs):
         dist["inputs"] += 1
         bump(dist["input_size"], vlib.histogram([len(text)], buckets=(0, 16, 64, 256, 1024, 4096)).popitem()[0])
         bump(dist["mutation"], origin.split(":")[0] if origin.startswith("example") else origin)
+        if origin.startswith("accepted:"):
+            for cid, argv, rc, crashed, cls, site, err, has_out in res:
+                bump(dist.setdefault("accepted_text_outcomes", {}), "crash" if crashed else "exit 0" if rc == 0 else f"exit {rc}")
         accepted_somewhere = False
         for cid, argv, rc, crashed, cls, site, err, has_out in res:
             dist["cli_runs"] += 1
@@ -102,7 +117,7 @@ def extra(ctx, cfg, results, inprocess=True):
     # in-process parsing of every node type
     kinds = harness_kinds() if inprocess else []
     r2 = clilib.rng(ctx, "inprocess")
-    texts = [t for t, _, _ in inputs[n_fixed:] if len(t) <= 600]
+    texts = [t for t, _, o in inputs[n_fixed:] if len(t) <= 600 and not o.startswith("accepted:")]
     r2.shuffle(texts)
     # (the fixed texts always; then a sample of the mutants)
     texts = [t for t, _, o in inputs[:n_fixed] if o.startswith("fixed")] + texts
